@@ -44,27 +44,30 @@ fn wait(result: CommandSendResult, deadline: Instant) -> bool {
 
 pub struct StressOutcome { pub rounds: usize, pub ops: usize, pub stall: Option<String> }
 
-pub fn run(seed: u64, rounds: usize, threads: usize, ops_per_thread: usize, timeout: Duration) -> StressOutcome {
+pub fn run(seed: u64, rounds: usize, threads: usize, ops_per_thread: usize, timeout: Duration, reads_pct: u32,
+           mut final_out: Option<&mut dyn std::io::Write>) -> StressOutcome {
     let mut total_ops = 0;
     for round in 0..rounds {
         let mut rng = StdRng::seed_from_u64(seed.wrapping_add(round as u64));
         let clock = StressClock(Arc::new(AtomicI64::new(1000)));
         let cache = Arc::new(CacheD::<u64, u64>::new(
             ConfigBuilder::new(*[1u64, 4, 64].get(rng.gen_range(0..3)).unwrap(), 16, *[6i64, 20, 200].get(rng.gen_range(0..3)).unwrap())
-                .shards(2).command_buffer_size(*[1usize, 1, 2].get(rng.gen_range(0..3)).unwrap()).access_pool_size(1).access_buffer_size(1)
+                .shards(2).command_buffer_size(*[1usize, 1, 2].get(rng.gen_range(0..3)).unwrap()).access_pool_size(1).access_buffer_size(*[1usize, 2, 8].get(round % 3).unwrap())
                 .clock(Box::new(clock.clone())).ttl_tick_duration(Duration::from_millis(1))
                 .key_hash_fn(Box::new(|key: &u64| *key)).build()));
         let deadline = Instant::now() + timeout;
         let (sender, receiver) = mpsc::channel();
         let stop = Arc::new(AtomicBool::new(false));
         let done_ops = Arc::new(AtomicUsize::new(0));
+        let lookups = Arc::new(AtomicUsize::new(0));
+        let (pool_size, buffer_size) = (1usize, *[1usize, 2, 8].get(round % 3).unwrap());
         {
             let (clock, stop) = (clock.clone(), stop.clone());
             std::thread::spawn(move || { while !stop.load(Ordering::SeqCst) { clock.0.fetch_add(1, Ordering::SeqCst); std::thread::sleep(Duration::from_millis(2)); } });
         }
         let with_shutdown = rng.gen_bool(0.5);
         for thread in 0..threads {
-            let (cache, sender, done_ops) = (cache.clone(), sender.clone(), done_ops.clone());
+            let (cache, sender, done_ops, lookups) = (cache.clone(), sender.clone(), done_ops.clone(), lookups.clone());
             let thread_seed: u64 = rng.gen();
             std::thread::spawn(move || {
                 let mut rng = StdRng::seed_from_u64(thread_seed);
@@ -72,22 +75,22 @@ pub fn run(seed: u64, rounds: usize, threads: usize, ops_per_thread: usize, time
                 for index in 0..ops_per_thread {
                     let key = rng.gen_range(0..4u64);
                     let value = (thread * 100_000 + index) as u64;
-                    let result = match rng.gen_range(0..10) {
+                    let roll = if rng.gen_range(0..100) < reads_pct { rng.gen_range(6..10) } else { rng.gen_range(0..10) };
+                    let result = match roll {
                         0 | 1 => Some(cache.put_with_weight(key, value, rng.gen_range(1..5))),
                         2 => Some(cache.put_with_weight_and_ttl(key, value, rng.gen_range(1..5), Duration::from_secs(rng.gen_range(1..4)))),
                         3 => Some(cache.put_or_update(PutOrUpdateRequestBuilder::new(key).value(value).time_to_live(Duration::from_secs(rng.gen_range(1..4))).build())),
                         4 => Some(cache.put_or_update(PutOrUpdateRequestBuilder::new(key).value(value).weight(rng.gen_range(1..5)).build())),
                         5 => Some(cache.delete(key)),
-                        6 => { let _ = cache.get_ref(&key).map(|reference| *reference.value().value_ref()); None }
-                        7 => { let _ = cache.multi_get(vec![&0, &1, &2]); None }
-                        _ => { let _ = cache.get(&key); None }
+                        6 => { lookups.fetch_add(1, Ordering::SeqCst); let _ = cache.get_ref(&key).map(|reference| *reference.value().value_ref()); None }
+                        7 => { lookups.fetch_add(3, Ordering::SeqCst); let _ = cache.multi_get(vec![&0, &1, &2]); None }
+                        _ => { lookups.fetch_add(1, Ordering::SeqCst); let _ = cache.get(&key); None }
                     };
                     if let Some(result) = result {
                         if rng.gen_bool(0.6) && !wait(result, deadline) { ok = false; break; }
                     }
                     done_ops.fetch_add(1, Ordering::SeqCst);
                 }
-                if with_shutdown && thread == 0 { cache.shutdown(); }
                 let _ = sender.send((thread, ok));
             });
         }
@@ -107,7 +110,31 @@ pub fn run(seed: u64, rounds: usize, threads: usize, ops_per_thread: usize, time
                 "round {} (seed {}): {} of {} caller threads finished within {:?}{}", round, seed.wrapping_add(round as u64), finished, threads, timeout,
                 if pending_forever { "; an acknowledgement never completed" } else { "" })) };
         }
-        if !with_shutdown { cache.shutdown(); }
+        // quiescence: the clock stands still, the queue drains, a few sweeps pass
+        let mut snapshot = cache.verif_snapshot(&|key| *key as i64, &|value| *value as i64);
+        for _ in 0..400 {
+            std::thread::sleep(Duration::from_millis(5));
+            let next = cache.verif_snapshot(&|key| *key as i64, &|value| *value as i64);
+            let stable = next.queue_len == 0 && next.stats == snapshot.stats && next.weight_used == snapshot.weight_used && next.access_channel_len == 0;
+            snapshot = next;
+            if stable { break; }
+        }
+        if let Some(out) = final_out.as_mut() {
+            let record = serde_json::json!({
+                "t": "final", "run": round + 1, "lookups": lookups.load(Ordering::SeqCst), "pool": pool_size, "buffer": buffer_size,
+                "s": {
+                    "store": snapshot.store.iter().map(|entry| serde_json::json!({"k": entry.key, "id": entry.id})).collect::<Vec<_>>(),
+                    "kw": snapshot.weights.iter().map(|entry| serde_json::json!({"id": entry.id, "k": entry.key, "w": entry.weight})).collect::<Vec<_>>(),
+                    "used": snapshot.weight_used.unwrap_or(-999), "max": snapshot.max_weight, "qlen": snapshot.queue_len, "chlen": snapshot.access_channel_len,
+                    "buf": snapshot.buffer_lens.iter().map(|len| len.map(|len| len as i64).unwrap_or(-1)).collect::<Vec<_>>(),
+                    "stats": snapshot.stats.iter().map(|value| *value as i64).collect::<Vec<_>>(),
+                }
+            });
+            serde_json::to_writer(&mut **out, &record).unwrap();
+            out.write_all(b"\n").unwrap();
+        }
+        let _ = with_shutdown;
+        cache.shutdown();
     }
     StressOutcome { rounds, ops: total_ops, stall: None }
 }
